@@ -25,7 +25,7 @@ variables.
 
 from collections.abc import MutableMapping
 from contextlib import contextmanager
-from struct import pack, unpack, unpack
+from struct import pack, unpack_from
 
 from .ebpf import AssembleError, Expression, Opcode, Map, FuncId
 from .bpf import (
@@ -73,7 +73,8 @@ class HashGlobalVarDesc:
             return self
         if instance.loaded:
             fd = instance.__dict__[self.name].fd
-            return lookup_elem(fd, pack("B", self.count), self.fmt)
+            data = lookup_elem(fd, pack("B", self.count), 8)
+            return unpack_from(self.fmt, data)[0]
         ret = instance.__dict__.get(self.name, None)
         if ret is None:
             ret = HashGlobalVar(instance, self.count, self.fmt)
